@@ -208,6 +208,10 @@ class Check:
         broken_tie = [t for t in self.ties if not t[1]]
         lines = []
         nviol = 0
+        if unknown and os.environ.get("VERIF_KEYS"):
+            ks = {}
+            for f in unknown: ks.setdefault(f["key"], f["what"])
+            for k, w in sorted(ks.items()): print("[check] failure key %s :: %s" % (k, w[:240]))
         if unknown:
             os.makedirs(rdir, exist_ok=True)
             seen = set()
